@@ -70,11 +70,66 @@ class Ctx:
     def quick(self):
         return self.tier == "quick"
 
+    def scale(self):
+        """change-directed deepening: when a source file of the crate differs from the fingerprints recorded for the tree the
+        machinery was built against (checks/fingerprints.json), the quick tier explores several times more inputs.
+        This only decides HOW MUCH is explored — a changed file is never by itself a reason to report anything."""
+        if not self.quick():
+            return 1
+        if not hasattr(self, "_scale"):
+            changed = changed_sources()
+            self._scale = DEEPEN if changed else 1
+            if changed:
+                self.extra["changed_sources"] = changed[:40]
+                self.notes.append(f"{len(changed)} source file(s) differ from the recorded fingerprints ({', '.join(changed[:6])}…): "
+                                  f"quick tier explores {DEEPEN}x the usual volume")
+        return self._scale
+
     def add_ob(self, name, kind, ok, detail=""):
         self.obligations.append({"name": name, "kind": kind, "ok": bool(ok), "detail": detail[-2000:]})
 
     def failed_obs(self):
         return [o for o in self.obligations if not o["ok"]]
+
+
+# ---------------------------------------------------------------------------------------------
+# fingerprints of the crate's sources (comments and blank space stripped)
+
+DEEPEN = 6
+FINGERPRINTS = os.path.join(VERIF, "checks", "fingerprints.json")
+
+def _strip_rust(text):
+    text = re.sub(r"/\*.*?\*/", " ", text, flags=re.S)
+    out = []
+    for line in text.splitlines():
+        line = re.sub(r"//.*$", "", line) if '"' not in line else re.sub(r"^\s*//.*$", "", line)
+        line = "".join(line.split())
+        if line:
+            out.append(line)
+    return "\n".join(out)
+
+def source_fingerprints():
+    import hashlib
+    fp = {}
+    src = os.path.join(REPO, "src")
+    for root, _, files in os.walk(src):
+        for f in files:
+            if f.endswith(".rs"):
+                path = os.path.join(root, f)
+                rel = os.path.relpath(path, REPO)
+                try:
+                    fp[rel] = hashlib.sha256(_strip_rust(open(path, encoding="utf-8", errors="replace").read()).encode()).hexdigest()[:16]
+                except OSError:
+                    pass
+    return fp
+
+def changed_sources():
+    try:
+        base = json.load(open(FINGERPRINTS))["files"]
+    except (OSError, ValueError, KeyError):
+        return []
+    cur = source_fingerprints()
+    return sorted(k for k in set(base) | set(cur) if base.get(k) != cur.get(k))
 
 
 # ---------------------------------------------------------------------------------------------
